@@ -9,6 +9,7 @@ TRUSTED_BASE = [
 
 PROPS = {
     "C17": {
+        "families_exhaustive": ["osub_all"],
         "families": ["osub", "unwrap", "accu"],
         "n_quick": 60000, "n_thorough": 600000,
         "clauses_proved": [
@@ -59,6 +60,7 @@ PROPS["C10"] = {
     "rule": "lp1: arbitrary/set()/reachable states x lattice gains x full-scale alternations; lp2: k lattice x level pairs; each configuration distinct",
 }
 PROPS["C01"] = {
+    "families_exhaustive": ["cossin_all"],
     "modules": ["C01", "C01acc"],
     "families": ["cossin"],
     "n_quick": 300000, "n_thorough": 3000000,
@@ -124,6 +126,7 @@ PROPS["C13"] = {
     "rule": "orders 0..=5, rates 0..=32, i32/i64/i128, arbitrary low-rate sequences sized to avoid overflow; contract violations in the correspondence stream",
 }
 PROPS["C05"] = {
+    "families_exhaustive": ["num8_all"],
     "families": ["num"],
     "n_quick": 200000, "n_thorough": 2000000,
     "clauses_proved": [
@@ -173,6 +176,7 @@ PROPS["C04"] = {
 }
 
 PROPS["C02"] = {
+    "families_exhaustive": ["atani_all"],
     "modules": ["C02", "C02acc"],
     "families": ["atan2"],
     "n_quick": 200000, "n_thorough": 2000000,
